@@ -363,7 +363,7 @@ func discharge(o *Obligation, dir string, timeout time.Duration, idx int) {
 
 // the relaxation is only used when no recursive spec function is involved (their axioms are quantified)
 func usesPreludeRec(txt string) bool {
-	return strings.Contains(txt, "(declare-fun psum") || strings.Contains(txt, "(declare-fun emaS") || strings.Contains(txt, "(declare-fun rmaS") || strings.Contains(txt, "(declare-fun since_") || strings.Contains(txt, "(declare-fun fcount")
+	return strings.Contains(txt, "(declare-fun psum") || strings.Contains(txt, "(declare-fun emaS") || strings.Contains(txt, "(declare-fun rmaS") || strings.Contains(txt, "(declare-fun since_") || strings.Contains(txt, "(declare-fun fcount") || strings.Contains(txt, "(declare-fun wcount") || strings.Contains(txt, "(declare-fun wmaxS") || strings.Contains(txt, "(declare-fun wminS") || strings.Contains(txt, "(declare-fun cnt") || strings.Contains(txt, "(declare-fun nlast") || strings.Contains(txt, "(declare-fun dlast")
 }
 
 func firstLines(s string, n int) string {
